@@ -1015,3 +1015,12 @@ O(id="C03.bystander_with_request_colliding_ids", props=["C03", "C05", "C11", "C0
   symbolic="set value, reply payload", assumes=["set-up succeeds"], bounds="as C03.bystander_with_request with colliding routed ids", **_scn_route_collide)
 O(id="C14.timeout_colliding_ids", props=["C14", "C03", "C07", "C02"], entry="harness_timeout", functions=_RF, symbolic="set value",
   assumes=["set-up succeeds"], bounds="as C14.timeout with colliding routed ids", **_scn_route_collide)
+
+# short histories with two elements / fetches / owners: the subscriber's replica is replayed from its events and compared with the element set
+_HIST = ["two_elements_one_owner", "owner_of_two_elements_leaves", "path_re_added_after_remove", "path_re_added_after_owner_left", "unfetch_one_of_three_fetches", "two_owners"]
+for _h, _nm in enumerate(_HIST):
+    O(id="C01.history_" + _nm, props=["C01", "C04", "C05", "C07"], harness="harness/scn_hist.c", entry="harness_history", defines=["HIST=%d" % _h],
+      functions=["add_element_to_peer", "change_state", "remove_element_from_peer", "add_fetch_to_peer", "add_fetch_to_states", "remove_fetch_from_peer", "notify_fetchers", "free_peer_resources"],
+      symbolic="three state values", assumes=["the history's requests succeed where the history says so"],
+      bounds="3 peers, paths 'x' and 'y', history '%s'" % _nm,
+      **dict({k: v for k, v in _scn_guard.items() if k != "harness"}, unwind=22))
